@@ -642,7 +642,9 @@ void vyukov_hash_map<Key, Value, Policies...>::grow(bucket& bucket, bucket_state
   const int already_resizing = resize_lock.exchange(1, std::memory_order_relaxed);
 
   // release the bucket lock
-  bucket.state.store(state, std::memory_order_relaxed);
+  // nothing was changed, but a relaxed store would end the release sequence of the previous
+  // unlock (20, 24) that the next acquire-CAS (17) has to synchronize with
+  bucket.state.store(state, std::memory_order_release);
 
   // we intentionally release the bucket lock only after we tried to acquire
   // the resize_lock, to avoid the situation where we might miss a resize
